@@ -11,7 +11,7 @@ from ..effects import DESTRUCTIVE_METHODS, destructive_kind
 from ..loader import Func, norm, parent, walk_expr, walk_own
 from ..prov import attr_chain, call_name, expand, get_arg, refers_to_call, scope_of
 from .C04 import _check_adder
-from .transfer_common import build_model
+from .transfer_common import check_oneshot, check_rest_attempted, build_model
 
 STORE_MUTATORS = {"add", "delete", "clear", "protect", "unprotect", "set_exec", "move", "makedirs", "_remove_unpacked_dir", "set_many", "save", "save_many", "update"}
 READ_ONLY_OK = {"get", "exists", "oid_to_path", "path_to_oid", "oids_exist", "list_oids_exists", "all", "check", "_oid_parts", "unstrip_protocol", "is_protected"}
@@ -115,6 +115,9 @@ def check(ck: Checker) -> None:
                            f"`{m.failed}.update({t.ast.id})` merges the reported failures",
                            f"the failures held in `{t.ast.id}` are never merged into `{m.failed}`",
                            construct=f"{norm(c)} / merged")
+
+    check_rest_attempted(ck, m, "C11.nodrop")
+    check_oneshot(ck, "C11.nodrop", [f for f in move.module.funcs.values()])
 
     # -------------------------------------------------------------- onerror
     _check_adder(ck, m, "C11.onerror")
